@@ -150,5 +150,9 @@ def run(ck, facts, tier):
     from . import c11
 
     c11.rule_closure_lifetime(ck, facts)
+    # with the scheduler: both runtimes convert, accept and fire a scheduled time alike
+    c11.rule_time_conversion(ck, facts)
+    c11.rule_guards(ck, facts)
+    c11.rule_protocol(ck, facts)
     ck.not_decided("equality of outputs for a given program; register allocation, control-flow lowering and memory models are not compared")
     ck.not_decided("anything about wasmtime's execution of the emitted module")
